@@ -101,6 +101,16 @@ def cases(ctx):
     return out
 
 
+def _squash(toks):
+    out = []
+    for t in toks:
+        if out and out[-1][0] == t:
+            out[-1][1] += 1
+        else:
+            out.append([t, 1])
+    return " ".join(t if n == 1 else f"{t}x{n}" for t, n in out if t not in ("pre",))[:600]
+
+
 def run(ctx):
     ctx.rule = ("cases = full runs (structure x options x parameter file); non-trivial = run with >= 1 reported group; "
                 "every group of every conformation and of the average is one evaluation of the identity")
@@ -117,8 +127,24 @@ def run(ctx):
         raise tlc.TLCError("self-test failed: stale totals after sharing were not refuted")
     # ---- T -------------------------------------------------------------------------------
     cs = cases(ctx)
-    recs, metas, _ = runbank.run_and_record(ctx, cs)
+    recs, metas, _ = runbank.run_and_record(ctx, cs, file_layout=True)
     texts = {c[0]: c for c in cs}
+    # the layout of every written file: a sentence of PkaFile.tla, both tables list the same groups
+    from .. import pkafile
+    lay = [(r_["_pkafile"], m_) for r_, m_ in zip(recs, metas) if r_ and "_pkafile" in r_]
+    if lay:
+        if ctx.thorough() or ctx.seed % 2 == 0:
+            pkafile.selftest(ctx, lay[0][0])
+        lv = pkafile.validate(ctx, [x[0] for x in lay])
+        ctx.extra["pka_files_parsed_as_layout"] = len(lay)
+        for inv, idxs in sorted(lv.items()):
+            for i_ in idxs[:3]:
+                m_ = lay[i_][1]
+                msg = f"{inv} violated by the file written for {m_}: line classes {_squash(lay[i_][0]['toks'])}"
+                if inv in ("F_Accepted", "F_TablesAgree"):
+                    ctx.violation(f"rendering:{inv}:{m_['input'].split(' [')[0]}", msg, {"pdb": texts[m_["input"]][1], "optargs": m_["optargs"]})
+                else:
+                    ctx.note(f"BEYOND-PROPERTIES (C02; decided by C10 where it is a listed clause): {msg}")
     ngroups = 0
     for m in metas:
         if "exc" in m:
